@@ -244,8 +244,6 @@ class Graphs:
             if g is None or len(g["refs"]) > 400:
                 continue
             ids = Ids()
-            for st in g["starts"]:
-                lines.append(((s, "start", st), oracle_line([[]], g["alias"], st, ids)))
             if g["refs"]:
                 lines.append(((s, "root", None), oracle_line([[]], g["refs"], g["refs"][0][0], ids)))
         outs = common.run_tool(self.orc, [l for _, l in lines]) if lines else []
@@ -314,20 +312,6 @@ def classify(case, r, profile, graphs):
         f, ln, msg = panic_site(r["detail"])
         # the location is the absolute path of the source the driver was compiled from
         code = src_line(f, ln) if "/src/validator/" in f else ""
-        if "/uriparse-" in f and case["ep"] in ("J", "C", "V"):
-            return "kf-c05-uri-dependency-panic"
-        if f.endswith("src/validator/json.rs") and "attempt to multiply with overflow" in msg and "n * 1000" in code \
-                and profile == "debug" and any(abs(n) > 9223372036854775 for n in json_ints(case.get("doc"))):
-            return "kf-c05-time-mul-overflow"
-        if f.endswith("src/validator/control.rs") and "attempt to add with overflow" in msg and profile == "debug" \
-                and re.search(r"\+ \*?controller", code) and schema and ".plus" in schema:
-            return "kf-c05-plus-add-overflow"
-        if f.endswith("src/validator/cbor.rs") and "TryFromIntError" in msg and "try_into().unwrap()" in code:
-            return "kf-c05-cbor-time-try-into"
-        if f.endswith("src/validator/control.rs") and "consume_rules(pairs).unwrap()" in code and schema and ".abnf" in schema:
-            return "kf-c05-abnf-consume-rules-unwrap"
-        if "/pest_vm-" in f and "undefined rule" in msg and schema and ".abnf" in schema:
-            return "kf-c05-abnf-undefined-rule"
         if "/abnf_to_pest-" in f and schema and ".abnf" in schema:
             return "kf-c05-abnf-to-pest-panic"
         return None
@@ -346,11 +330,6 @@ def classify(case, r, profile, graphs):
         if g is None:
             return None
         if v in ("STACK", "TIMEOUT", "HANG"):
-            # un-guarded is_ident_* / *_from_ident chasing: a name in a chase start position (control target /
-            # controller, unwrap, bareword key) for which the Coq model's call does not return
-            # (release builds turn some of these recursions into loops: the call hangs instead of overflowing)
-            if any(graphs.q.get((schema, "start", st), (True, "?", 0))[1] == "O" for st in g["starts"]):
-                return "kf-c05-alias-cycle-chase"
             if cyclic(g["gcalt"]):
                 return "kf-c05-group-choice-alternate-cycle"
             gadj = adjacency(g["groups"])
@@ -362,7 +341,7 @@ def classify(case, r, profile, graphs):
             return "kf-c05-abnf-left-recursion-stack"
         if v in ("TIMEOUT", "HANG"):
             acyc, _, calls = graphs.q.get((schema, "root", None), (False, "?", 0))
-            if acyc and calls >= (1 << 17):
+            if acyc and calls >= (1 << 16):
                 return "kf-c05-exponential-choice-paths"
     return None
 
@@ -748,7 +727,7 @@ def gen_arith():
     edge = 9223372036854775
     ns = sorted(set([0, 1, -1, edge, edge + 1, -edge, -edge - 1, edge - 1, 2 ** 63 - 1, -2 ** 63, 2 ** 62, 10 ** 15, 10 ** 16, -10 ** 16, 123456789, 253402300799, 253402300800]))
     for n in ns:
-        out.append(("R\t0\t%s\t0" % zhex(n), {"ep": "J", "schema": "a = time", "doc": str(n), "fam": "model/arith-mul1000", "profile": "debug"}))
+        out.append(("R\t0\t%s\t0" % zhex(n), {"ep": "J", "schema": "a = time", "doc": str(n), "fam": "model/arith-mul1000", "profile": "both"}))
     for z in sorted(set([0, 1, -1, 2 ** 63 - 1, 2 ** 63, 2 ** 64 - 1, -2 ** 63, -2 ** 63 - 1, -2 ** 64, 2 ** 62, 253402300799, -62167219201, 10 ** 12])):
         body = cbor_head(0, 8, z) if z >= 0 else cbor_head(1, 8, -1 - z)
         out.append(("R\t1\t%s\t0" % zhex(z), {"ep": "C", "schema": "a = time", "doc": b"\xc1" + body, "fam": "model/arith-try-into", "profile": "both"}))
@@ -758,7 +737,7 @@ def gen_arith():
     big = [0, 1, 5, 2 ** 62, 2 ** 63 - 1, 2 ** 63, 2 ** 64 - 2, 2 ** 64 - 1, -1, -5, -2 ** 62, -2 ** 63 + 1, -2 ** 63]
     for a in big:
         for b in big:
-            out.append(("R\t3\t%s\t%s" % (zhex(a), zhex(b)), {"ep": "J", "schema": "a = %d .plus %d" % (a, b), "doc": "0", "fam": "model/arith-plus", "profile": "debug"}))
+            out.append(("R\t3\t%s\t%s" % (zhex(a), zhex(b)), {"ep": "J", "schema": "a = %d .plus %d" % (a, b), "doc": "0", "fam": "model/arith-plus", "profile": "both"}))
     return out
 
 
@@ -890,6 +869,17 @@ def harvest_witnesses():
     return out, srcs
 
 
+def my_fixed_witnesses():
+    p = os.path.join(common.VERIF, "findings.d", PROP + ".json")
+    out = []
+    if os.path.exists(p):
+        for w in json.load(open(p)).get("fixed_witnesses", []):
+            for profile in (["release", "debug"] if w.get("profile", "both") == "both" else [w["profile"]]):
+                out.append((profile, {"ep": w["ep"], "schema": w.get("schema"), "doc": bytes.fromhex(w["doc_hex"]) if "doc_hex" in w else w.get("doc"),
+                                      "fam": "witness/fixed-c05", "was": w.get("id")}))
+    return out
+
+
 def my_findings():
     p = os.path.join(common.VERIF, "findings.d", PROP + ".json")
     if os.path.exists(p):
@@ -961,6 +951,10 @@ def fresh_drivers():
     """cargo decides by modification times; a source file restored with its old time stamp (or changed with a
     preserved one) leaves a stale library in the shared target directory.  The drivers of this check are tied to
     the CONTENT of /repo: when the digest differs from the one of the last build the cddl artifacts are cleaned."""
+    default_cache = os.path.join(common.VERIF, ".cache")
+    if os.path.realpath(common.CACHE) != os.path.realpath(default_cache):
+        # a private cache (VERIF_CACHE, e.g. seeded-defect experiments): nobody else's artifacts in it, plain cargo
+        return {"release": common.build_harness("c05"), "debug": common.build_harness("c05", profile="debug")}
     stamp = os.path.join(common.CACHE, "c05_source.digest")
     dig = source_digest()
     try:
@@ -1024,8 +1018,11 @@ def run(tier, seed):
 
     # ---- 0. the harness sees what it has to see ------------------------------------------
     for profile in ("release", "debug"):
-        st = run_cases(drv[profile], ["K\t0", "K\t1", "K\t2", "K\t3", "P\t" + hx("a = int")], case_ms=1000)
-        got = [r["v"] for r in st]
+        # (the endless loop gets a short watchdog of its own, the others a long one: a loaded machine needs a
+        # second of cpu time just to run into the end of an 8 MiB stack)
+        st = run_cases(drv[profile], ["K\t0", "K\t1", "K\t2", "P\t" + hx("a = int")], case_ms=10000, per_shard=1)
+        st3 = run_cases(drv[profile], ["K\t3"], case_ms=300)
+        got = [r["v"] for r in st[:3] + st3 + st[3:]]
         if got != ["PANIC", "STACK", "ALLOC", "TIMEOUT", "OK"]:
             res.violation("harness self-test (%s build): expected PANIC STACK ALLOC TIMEOUT OK, observed %s - crashes would go unnoticed" % (profile, got),
                           {"kind": "self-test", "observed": got}, no_input=True)
@@ -1056,6 +1053,11 @@ def run(tier, seed):
             res.known(kf)
         else:
             notes.append("finding %s apparently repaired: its witness returns normally" % kid)
+    # the witnesses of the repaired findings of this property: a recurrence is a VIOLATION (no classifier left for them)
+    fixed_w = my_fixed_witnesses()
+    for profile in ("release", "debug"):
+        sel = [c for pr, c in fixed_w if pr == profile]
+        execute(sel, profile, ms=1500 if quick else case_ms)
     phase("replay-findings")
     # ---- 2. inputs ------------------------------------------------------------------------
     wit, wit_srcs = harvest_witnesses()
@@ -1114,62 +1116,32 @@ def run(tier, seed):
     tally.beyond = {k: "first failure at depth %d" % v for k, v in sorted(by.items())}
     # ---- 4. the Coq models predict the code -------------------------------------------------
     mismatches = 0
-    #   4a. alias chasing: chase_seq = OutOfFuel  <->  stack overflow of validate_json_from_str
-    #        acyclic_alias = true (or no cycle reachable from the target) -> it returns (theorem C05_chase_seq_terminates_partial)
-    #        in between (a cycle is reachable but the first helper chain stops early): later helper calls decide; either outcome,
-    #        a failure must be a non-return
-    NONRET = ("STACK", "TIMEOUT", "HANG")
-    # once the finding is repaired (its witness returns) the code has a guard the model lacks: the model's
-    # "does not return" no longer applies, and every schema of the family has to return
-    alias_open = bool(wres.get("kf-c05-alias-cycle-chase"))
-    l_seq, l_any = [], []
+    #   4a. alias chasing: the guarded model returns for every environment (C05_chase_seq_terminates), so
+    #       validate_json_from_str has to return on every schema of the family, cyclic or not
+    l_seq = []
     for c in alias_cases:
         ids = Ids()
         l_seq.append(oracle_line(c["hits"], c["env"], c["start"], ids))
-        l_any.append(oracle_line([[]], c["env"], c["start"], ids))
     pred = common.run_tool(orc, l_seq)
-    pred_any = common.run_tool(orc, l_any)
-    obs = run_cases(drv["release"], [line_of(c) for c in alias_cases], case_ms=500 if quick else 2000, per_shard=10)
+    obs = run_cases(drv["release"], [line_of(c) for c in alias_cases], case_ms=1000 if quick else 3000, per_shard=10)
+    obs_d = run_cases(drv["debug"], [line_of(c) for c in alias_cases[::4]], case_ms=1000 if quick else 3000, per_shard=10)
     pred_hist = {"Y": 0, "N": 0, "O": 0, "?": 0}
     acyc_hist = {"acyclic": 0, "cyclic": 0}
-    agree = {"predicted-nonreturn-observed": 0, "predicted-return-observed": 0, "undetermined-returned": 0, "undetermined-nonreturn": 0}
-    for c, p, pa, r in zip(alias_cases, pred, pred_any, obs):
+    agree = {"returned": 0}
+    for c, p, r in zip(alias_cases, pred, obs):
         a, o, _ = (p.split(" ") + ["", "", ""])[:3]
-        oa = (pa.split(" ") + ["", ""])[1]
         pred_hist[o if o in pred_hist else "?"] += 1
         acyc_hist["acyclic" if a == "1" else "cyclic"] += 1
-        nonret = r["v"] in NONRET
-        tally.add(c, r, "release", "kf-c05-alias-cycle-chase" if nonret and oa == "O" else None)
-        if a == "1" and (o == "O" or oa == "O"):
-            res.violation("oracle contradicts theorem C05_chase_seq_terminates_partial on %r" % c["schema"], {"kind": "oracle", "schema": c["schema"]}, no_input=True)
-        if o == "?" or oa == "?":
-            continue
-        if r["v"] in ("PANIC", "ALLOC", "CRASH"):
+        if o == "O":
+            res.violation("oracle contradicts theorem C05_chase_seq_terminates on %r" % c["schema"], {"kind": "oracle", "schema": c["schema"]}, no_input=True)
+    for (c, r), profile in [((c, r), "release") for c, r in zip(alias_cases, obs)] + [((c, r), "debug") for c, r in zip(alias_cases[::4], obs_d)]:
+        tally.add(c, r, profile, None)
+        if r["v"] in FAIL and run_cases(drv[profile], [line_of(c)], case_ms=12000)[0]["v"] in FAIL:
             mismatches += 1
-            res.violation("validate_json_from_str: %s (%s) on schema %r doc %s" % (r["v"], r["detail"][:100], c["schema"], c["doc"]), replay_of(c, "release", r))
-        elif o == "O" and not nonret and not alias_open:
-            agree["model-nonreturn-guarded-code-returns"] = agree.get("model-nonreturn-guarded-code-returns", 0) + 1
-        elif nonret and not alias_open:
-            mismatches += 1
-            res.violation("validate_json_from_str: %s on an alias-chase schema although the alias-cycle finding is repaired: schema %r doc %s"
-                          % (r["v"], c["schema"], c["doc"]), replay_of(c, "release", r))
-        elif o == "O" and not nonret:
-            mismatches += 1
-            res.violation("alias-chase model predicts that validate_json_from_str does not return (chase_seq = OutOfFuel) but it returned %s: schema %r doc %s"
-                          % (r["v"], c["schema"], c["doc"]), dict(replay_of(c, "release", r), predicted="O"))
-        elif oa != "O" and nonret and run_cases(drv["release"], [line_of(c)], case_ms=12000)[0]["v"] not in FAIL:
-            notes.append("alias family: %s not confirmed on re-run" % r["v"])
-            agree["predicted-return-observed"] += 1
-        elif oa != "O" and nonret:
-            mismatches += 1
-            res.violation("validate_json_from_str: %s on a schema whose control target reaches no alias cycle (model chase returns %s; acyclic_alias = %s): schema %r doc %s"
-                          % (r["v"], oa, a, c["schema"], c["doc"]), dict(replay_of(c, "release", r), predicted=oa))
-        elif o == "O":
-            agree["predicted-nonreturn-observed"] += 1
-        elif oa != "O":
-            agree["predicted-return-observed"] += 1
+            res.violation("validate_json_from_str (%s build): %s %s on an alias schema; the guarded alias-chase model returns for every environment: schema %r doc %s"
+                          % (profile, r["v"], r["detail"][:100], c["schema"], c["doc"]), replay_of(c, profile, r))
         else:
-            agree["undetermined-nonreturn" if nonret else "undetermined-returned"] += 1
+            agree["returned"] += 1
     phase("alias-model")
     #   4b. partial arithmetic
     ar = gen_arith()
@@ -1180,19 +1152,17 @@ def run(tier, seed):
         rs = run_cases(drv[profile], [line_of(c) for _, c, _ in sel], case_ms=case_ms)
         for (l, c, p), r in zip(sel, rs):
             fam = c["fam"]
-            repaired = not wres.get({"model/arith-mul1000": "kf-c05-time-mul-overflow", "model/arith-try-into": "kf-c05-cbor-time-try-into",
-                                     "model/arith-plus": "kf-c05-plus-add-overflow"}.get(fam, ""))
             if fam == "model/arith-size-u32":
                 want = "OK" if p == "A" else "ERR"
             else:
-                # a repaired finding: the operation is checked in the code, nothing panics any more
-                want = "PANIC" if (p == "P" and not repaired) else "OKERR"
+                # the checked operation is None -> the code reports a validation error; otherwise either verdict
+                want = "ERR" if p == "P" else "OKERR"
             got = r["v"]
             ok = (got == want) or (want == "OKERR" and got in ("OK", "ERR"))
             kf = classify(c, r, profile, graphs) if got in FAIL else None
             tally.add(c, r, profile, kf)
             st = arith_stats.setdefault(fam + "/" + profile, {"cases": 0, "panics": 0, "agree": 0})
-            st["cases"] += 1; st["panics"] += got == "PANIC"; st["agree"] += ok
+            st["cases"] += 1; st["panics"] += got == "PANIC"; st["agree"] += ok; st["none_class"] = st.get("none_class", 0) + (p == "P")
             if not ok or (got in FAIL and kf not in findings):
                 res.violation("%s (%s build): model says %s, %s returned %s %s on schema %r doc %s" %
                               (fam, profile, p, ENTRY[c["ep"]], got, r["detail"][:100], c["schema"], hx(c["doc"]) if isinstance(c["doc"], bytes) else c["doc"]),
